@@ -18,6 +18,7 @@ import (
 
 	"github.com/lianxiangcloud/linkchain/consensus"
 	"github.com/lianxiangcloud/linkchain/libs/common"
+	"github.com/lianxiangcloud/linkchain/libs/crypto"
 	lktypes "github.com/lianxiangcloud/linkchain/libs/cryptonote/types"
 	dbm "github.com/lianxiangcloud/linkchain/libs/db"
 	"github.com/lianxiangcloud/linkchain/libs/log"
@@ -74,14 +75,33 @@ type blockFacts struct {
 	keyImages []lktypes.Key
 	outs      map[common.Address]int // confidential outputs created, by token
 	holdings  *chainsim.Holdings     // account-side state after the block
+	rotates   bool
+	signers   string                 // the upgrade signer set in force after the block (installed by validator-signed rotations)
 	hasUTXO   bool
 	valChange bool
 }
 
+// signersOf renders the upgrade signer set a node works with.
+func signersOf(w *world.World) string {
+	info := w.TxService.GetMultiSignersInfo(types.TxContractCreateType)
+	if info == nil {
+		return "none"
+	}
+	var out []string
+	for _, e := range info.Signers {
+		out = append(out, fmt.Sprintf("%s:%d", e.Addr.Hex()[:10], e.Power))
+	}
+	sort.Strings(out)
+	return fmt.Sprintf("min %d %v", info.MinSignerPower, out)
+}
+
 func factsOf(s *chainsim.Sim, b *types.Block) *blockFacts {
-	f := &blockFacts{height: b.Height, hash: b.Hash(), outs: map[common.Address]int{}, holdings: s.Snapshot()}
+	f := &blockFacts{height: b.Height, hash: b.Hash(), outs: map[common.Address]int{}, holdings: s.Snapshot(), signers: signersOf(s.W)}
 	for _, tx := range b.Data.Txs {
 		f.txs = append(f.txs, tx.Hash())
+		if _, ok := tx.(*types.MultiSignAccountTx); ok {
+			f.rotates = true
+		}
 		if u, ok := tx.(*types.UTXOTransaction); ok {
 			f.hasUTXO = true
 			for _, ki := range u.GetInputKeyImages() {
@@ -244,7 +264,7 @@ func runCrash(t *rapid.T) {
 	if commitAsFastSync {
 		vstat.Label("blocks_committed_with_fastsync_flag")
 	}
-	s := chainsim.New(t, chainsim.Options{Contracts: true, Tokens: true, RichBalance: true})
+	s := chainsim.New(t, chainsim.Options{Contracts: true, Tokens: true, RichBalance: true, MultiSign: true})
 	defer func() { s.Close() }()
 	mode := "flat-kv"
 	if s.Spec.IsTrie {
@@ -283,9 +303,11 @@ func runCrash(t *rapid.T) {
 		t.Fatalf("node: %v", err)
 	}
 	defer x.net.Close()
+	// the validator set the application hears about from consensus is the lone validator: its key signs the rotations
+	s.ValKeys = []crypto.PrivKeyEd25519{val.Priv}
 
 	var facts []*blockFacts // facts[h] for h >= 1; facts[0] = genesis
-	facts = append(facts, &blockFacts{height: 0, holdings: s.Snapshot(), outs: map[common.Address]int{}})
+	facts = append(facts, &blockFacts{height: 0, holdings: s.Snapshot(), outs: map[common.Address]int{}, signers: signersOf(s.W)})
 	var hist []string
 	var base *world.DBSet
 	var baseWAL []byte
@@ -295,11 +317,18 @@ func runCrash(t *rapid.T) {
 		gen := map[common.Hash]*chainsim.Tx{}
 		for i := 0; i < ntx; i++ {
 			var g *chainsim.Tx
-			class := rapid.IntRange(0, 9).Draw(t, "class")
+			class := rapid.IntRange(0, 11).Draw(t, "class")
 			if b == 1 && i < 2 {
 				class = 0
 			}
 			switch class {
+			case 10:
+				// a validator-signed rotation of the upgrade signer set (kept in the transaction database)
+				g = s.GenMultiSign(t)
+			case 11:
+				if g = s.GenTokenSpend(t); g == nil {
+					g = s.GenTokenDeposit(t)
+				}
 			case 0, 1, 2:
 				g = s.GenA2U(t)
 			case 3, 4, 5:
@@ -354,6 +383,9 @@ func runCrash(t *rapid.T) {
 	}
 	if fl.valChange {
 		vstat.Label("last_block_changes_validators")
+	}
+	if fl.rotates {
+		vstat.Label("last_block_rotates_signer_set")
 	}
 	if len(fl.txs) == 0 {
 		vstat.Label("last_block_empty")
@@ -431,7 +463,11 @@ func runCrash(t *rapid.T) {
 	vstat.LabelN("crash_points", len(points))
 	// positions (counted in durable writes) of the block store's height descriptor and of the last UTXO-store write
 	descIdx, lastUtxoIdx := len(realIdx)+1, 0
+	signerIdx := len(realIdx) + 1 // position of the transaction database's signer-set record
 	for n, i := range realIdx {
+		if ops[i].DB == "tx" && strings.Contains(describe(ops[i]), "multisign_") && signerIdx > len(realIdx) {
+			signerIdx = n
+		}
 		if ops[i].DB == "block" && len(ops[i].KVs) == 1 && string(ops[i].KVs[0].Key) == "blockStore" {
 			descIdx = n
 		}
@@ -472,6 +508,14 @@ func runCrash(t *rapid.T) {
 					key += ":crash-after-utxo-save"
 				}
 			}
+			if key == "restart-inconsistent:signer-set-ahead" {
+				// likewise: the record of the signer set is written before the block store's height and nothing takes it back
+				if pt.k > signerIdx && pt.k <= descIdx {
+					key += ":crash-between-signer-record-and-block-store-height"
+				} else {
+					key += ":crash-elsewhere"
+				}
+			}
 			vstat.Label("finding_" + key)
 			if !vstat.Violation(t, P, key, "%s\ncrash point: %d of %d writes of block %d's commit sequence durable, between %s\nstorage mode: %s; block %d: %d txs, confidential=%v, validator change=%v\nhistory:\n%s\nwrite log of the block:\n%s",
 				verdict.detail, pt.k, len(realIdx), H, pt.tag, mode, H, len(fl.txs), fl.hasUTXO, fl.valChange, strings.Join(hist, "\n"), writeLog(ops)) {
@@ -480,7 +524,7 @@ func runCrash(t *rapid.T) {
 			return
 		}
 	}
-	if fl.hasUTXO || fl.valChange {
+	if fl.hasUTXO || fl.valChange || fl.rotates {
 		vstat.NonTrivial(mode + "|" + strings.Join(hist, "|") + "|" + writeLog(ops))
 	}
 	if vstat.WantSample() {
@@ -547,6 +591,14 @@ func restartAndCheck(s *chainsim.Sim, img *world.DBSet, val *consim.ValKey, powe
 			which = "ahead"
 		}
 		return &verdict{"restart-inconsistent:world-state-" + which, fmt.Sprintf("block store is at height %d but the world state is not the state after block %d: %s", h, h, d)}
+	}
+	// the signer set in force is the one after exactly h blocks
+	if got := signersOf(w); got != facts[h].signers {
+		which := "behind"
+		if h < H && got == facts[H].signers {
+			which = "ahead"
+		}
+		return &verdict{"restart-inconsistent:signer-set-" + which, fmt.Sprintf("block store is at height %d but the upgrade signer set the node works with is %s, after block %d it is %s", h, got, h, facts[h].signers)}
 	}
 	// spent key images == those of blocks <= h
 	for k := uint64(1); k <= H; k++ {
